@@ -46,7 +46,8 @@ ResetM(e) ==
 Subs(x, t) == x.wsubs[t] + (IF x.bst = "live" /\ x.btopic = t THEN 1 ELSE 0)
 Interested(x, t) == (Subs(x, t) > 0 /\ x.kind[t] # "fanout") \/ x.relays[t] > 0
 
-\* a fanout-only topic with a live subscription: announceRetry's re-check (ok == subs or relays) takes it for interest
+\* a fanout-only topic with a live subscription: before fix D20 announceRetry's re-check (ok == subs or relays) took it for
+\* interest; fanoutSubscribed / fanoutRetry label a recurrence (no longer a known finding: it is a VIOLATION)
 FanSub(x, t) == t \in x.topics /\ x.kind[t] = "fanout" /\ Subs(x, t) > 0
 
 \* ------------------------------------------------------------------ effect of the stimulus on the monitors
@@ -204,6 +205,10 @@ Step(x, e) ==
                \cup (IF a.a = "next" /\ x1.bst = "cancelled" THEN {"nextAfterCancel"} ELSE {})
                \cup (IF a.a = "cancel" /\ x0.wsubs[a.t] > 0 THEN {"readerCancelled"} ELSE {})
                \cup (IF a.a \in {"resetIn", "resetOut", "closeOut", "down"} THEN {"fault:" \o a.a} ELSE {})
+               \cup (IF a.a = "peer" /\ x0.conn[a.p] /\ x0.rup[a.p] /\ ToSet(a.subs) # x0.their[a.p] /\ x0.their[a.p] # {} /\ a.subs # <<>>
+                     THEN {IF ToSet(a.subs) \subseteq x0.their[a.p] THEN "dupInbound:subset"
+                           ELSE IF x0.their[a.p] \subseteq ToSet(a.subs) THEN "dupInbound:superset"
+                           ELSE IF ToSet(a.subs) \cap x0.their[a.p] = {} THEN "dupInbound:disjoint" ELSE "dupInbound:overlap"} ELSE {})
                \cup (IF a.a = "peer" /\ x0.conn[a.p] THEN {IF x0.rup[a.p] THEN "dupInbound" ELSE "inboundReopened"}
                      ELSE IF a.a = "peer" /\ a.p \in x0.seen THEN {"reconnect"} ELSE {})
         \* the connectivity libp2p reports must be what the stimuli asked for, else the scenario is discarded from here on
